@@ -111,8 +111,19 @@ def oracle_c12(tr: Trace):
 
 def _check_source_cancel(tr, k, st, pf, remote):
     got = _drained_after(tr, k, need_complete=True)
-    if got is None or pf["cond_code_eof"] not in (-1, 0):
-        return          # a cancel during the EOF (cancel) exchange abandons (C04/C14)
+    if got is None:
+        return
+    if any(s.tag == 7 and s.op[1] == 2 for s in tr.steps[:k]) or any(s.tag == 3 and s.ob["exc"] >= 200 for s in tr.steps[:k]):
+        return      # the environment removed the source file mid-transfer: outside the property's histories
+    # a cancel during an EOF (cancel) exchange of THIS transaction abandons (C04/C14): judged from the PDUs emitted
+    # since the transaction's put request, not from the handler's own bookkeeping
+    for s in reversed(tr.steps[:k]):
+        if s.tag == 8 and s.ob["ret"] == 1:
+            break
+        if s.tag == 2 and s.ob["ret"] == 1:
+            g = codec.dec_got(s.ob["extra"])[0]
+            if g["kind"] == codec.K_EOF and g["cond"] != 0:
+                return
     if not got or got[0]["kind"] != codec.K_EOF:
         raise Failure(f"C12 the next PDU after a successful sender cancel is not an EOF: {[g['kind'] for g in got]} (op {st.i})")
     e = got[0]
